@@ -60,6 +60,11 @@ let flush_script (acc : z list list) : unit =
   | [h] :: cases when int_of_z h = -100 ->
     List.iter (fun c -> print_line (codec_case c)) cases;
     print_string "#\n"
+  | [h] :: script when int_of_z h = -102 ->
+    (* a script whose final entity state is dumped and loaded into a new world: one line, the
+       internal dump of the loaded world *)
+    print_line (dumpload_world script);
+    print_string "#\n"
   | _ ->
     (* ARKMODEL_MODE=inv: evaluate the relation-tier invariant after every step instead of printing the trace *)
     let inv = (try Sys.getenv "ARKMODEL_MODE" = "inv" with Not_found -> false) in
